@@ -22,8 +22,12 @@ def _levels(kind: str, n0: int, d1: int, n1: int, surround: int) -> Tuple[Level,
 
 
 def run_pre(kind: str, is_async: bool, mode: str, n0: int, d1: int, n1: int, surround: int, r: int,
-            t0: bool, t1: bool, t2: bool, t3: bool, t4: bool, x: int, thr: int) -> Tuple[bool, bool]:
+            t0: bool, t1: bool, t2: bool, t3: bool, t4: bool, x: int, thr: int, amode: int = 0) -> Tuple[bool, bool]:
+    """amode (async callables only): how the conditions and captures are written - 0 plain functions, 1 coroutine
+    functions, 2 plain functions returning a coroutine, 3 plain functions returning a non-coroutine awaitable (like a
+    Future or a Task)."""
     n0, d1, n1, surround, r = conc(n0, 0, 4), conc(d1, 0, 2), conc(n1, 0, 2), conc(surround, 0, 3), conc(r, 0, 2)
+    amode = conc(amode, 0, 3) if is_async else 0
     prog = Prog(kind=kind, is_async=is_async, levels=_levels(kind, n0, d1, n1, surround))
     eff = effective(prog)
     if eff.creation_error_at is not None:
@@ -44,7 +48,7 @@ def run_pre(kind: str, is_async: bool, mode: str, n0: int, d1: int, n1: int, sur
     def body(kw: Dict[str, Any]) -> Any:
         return RESULT
 
-    built = get_built(prog, mode)
+    built = get_built(prog, mode, async_conds=amode)
     rt = RT(tv=tv, body=body, error_mode=mode)
     built.rt = rt
 
@@ -89,16 +93,19 @@ def run_pre(kind: str, is_async: bool, mode: str, n0: int, d1: int, n1: int, sur
     for (label, kw) in rt.seen:
         if label[0] == "pre" and "x" in kw and kw["x"] is not x:
             ok = False
+    # contracts of the property's other accessors must never be evaluated for this accessor
+    if any(e[0] == "sibling" for e in rt.log):
+        ok = False
     witness = (not holds) and raised is not None
-    note((kind, is_async, mode, n0, d1, n1, surround, tuple(rt.log), "viol" if not holds else "ok"), witness)
+    note((kind, is_async, mode, amode, n0, d1, n1, surround, tuple(rt.log), "viol" if not holds else "ok"), witness)
     return ok, witness
 
 
-ALL = ["n0", "d1", "n1", "surround", "r", "t0", "t1", "t2", "t3", "t4", "x", "thr"]
+ALL = ["n0", "d1", "n1", "surround", "r", "t0", "t1", "t2", "t3", "t4", "x", "thr", "amode"]
 
 
 def _mk(kind: str, is_async: bool, mode: str, params: List[Any]):  # type: ignore
-    defaults = {"d1": 0, "n1": 0, "t3": True, "t4": True}
+    defaults = {"d1": 0, "n1": 0, "t3": True, "t4": True, "amode": 0}
     return bind(run_pre, (kind, is_async, mode), ALL, defaults, [p.name for p in params])
 
 
@@ -127,10 +134,16 @@ def harnesses(tier: str) -> List[H]:
                         truth3 + [B("t3")] + ([B("t4")] if tier == "thorough" else []) + \
                         [I("x", -4, 12), I("thr", -4, 12)]
                     size = (n0hi + 1) * 3 * 3 * 4 * 3
+                if is_async:
+                    params = params + [I("amode", 0, 3)]
+                    size *= 4
                 out.append(H(name, _mk(kind, is_async, mode, params), params, tiers=(tier,), timeout=240,
                              family="kind={} async={} error={}; own stack 0..{}, optional subclass level "
                                     "(absent / not overriding / overriding with 0..2 own), surround in "
                                     "{{none, post, post+snapshot, invariant}}, truth rendering in "
-                                    "{{bool, int x-thr, x>thr}}".format(kind, is_async, mode, n0hi),
+                                    "{{bool, int x-thr, x>thr}}{}".format(
+                                        kind, is_async, mode, n0hi,
+                                        "; conditions/captures written as {plain, coroutine function, plain returning a "
+                                        "coroutine, plain returning a non-coroutine awaitable}" if is_async else ""),
                              family_size=size))
     return out
